@@ -379,3 +379,71 @@ def variants(world, tier="quick", only=None):
     if only:
         out = [v for v in out if any(o in v.name for o in only)]
     return out
+
+
+class SuaProgressVariant(Variant):
+    """SUAOptimizerMixin._optimization_check_progress(client_data, formula, strategy, extra_assumption): the solver is asked once
+    under the extra assumptions followed by the cut (when there is one); the caller's lists are NOT modified (the lexicographic
+    search hands its list of fixed objectives in as extra assumptions: a cut left in it would constrain the next goal); the
+    answer is the solver's model, or None."""
+    prop_ids = ("C18",)
+    qualname = OPT + ".SUAOptimizerMixin._optimization_check_progress"
+
+    def __init__(self, world, with_formula, with_extra):
+        self.world, self.with_formula, self.with_extra = world, with_formula, with_extra
+        self.name = "progress:sua[%s/%s]" % ("cut" if with_formula else "no-cut", "extra-assumptions" if with_extra else "no-extra")
+
+    def setup(self, ex):
+        W = self.world
+        env = core.make_env(ex, W)
+        self.cut = z3.Const("cut", Node) if self.with_formula else None
+        self.e0 = z3.Const("fixed_objective", Node)
+        self.extra = [self.e0] if self.with_extra else None
+        self.client = [z3.Const("client_item", Node)]
+        for x in [self.cut, self.e0, self.client[0]]:
+            if x is not None:
+                W.touch(ex, x)
+        self.asked = []
+        v = self
+        self.model = Obj("pysmt.solvers.solver.Model", {}, tag="model")
+
+        def solve(exx, a, kw):
+            v.asked.append(kw.get("assumptions", a[1] if len(a) > 1 else None))
+            return exx.decide(exx.fresh("satisfiable", B))
+        for q, fn in (("pysmt.solvers.solver.Solver.solve", solve), ("pysmt.solvers.solver.Solver.get_model", lambda exx, a, kw: v.model)):
+            c = Contract()
+            c.qualname, c.apply, c.world = q, fn, W
+            W.contracts[q] = c
+        self.s = Obj(OPT + ".SUAOptimizerMixin", {"environment": env}, tag="optimizer")
+        fi = W.repo.func(self.qualname)
+        return W.wrap_func(fi, fi.module, bound=self.s), [self.client, self.cut, "linear"], {"extra_assumption": self.extra}
+
+    def check(self, ex, outcome):
+        kind, r = outcome
+        if kind == "raise":
+            return [("no-exception", z3.BoolVal(False))]
+        W = self.world
+        goals = [("solver-asked-once", z3.BoolVal(len(self.asked) == 1))]
+        if len(self.asked) == 1:
+            got = BI.iterate(W, ex, self.asked[0]) if self.asked[0] is not None else []
+            want = ([self.e0] if self.with_extra else []) + ([self.cut] if self.with_formula else [])
+            goals.append(("assumptions-are-the-extra-ones-then-the-cut", z3.And([a == b for a, b in zip(got, want)]) if len(got) == len(want) and want
+                          else z3.BoolVal(len(got) == len(want))))
+        if self.with_extra:
+            goals.append(("caller's-extra-assumptions-not-modified", z3.BoolVal(len(self.extra) == 1 and self.extra[0] is self.e0)))
+        goals.append(("caller's-client-data-not-modified", z3.BoolVal(len(self.client) == 1)))
+        goals.append(("answer-is-the-solver's-model-or-none", z3.BoolVal(r is None or r is self.model)))
+        return goals
+
+
+_base_variants18o = variants
+
+
+def variants(world, tier="quick", only=None):
+    out = _base_variants18o(world, tier, None)
+    for wf in (True, False):
+        for we in (True, False):
+            out.append(SuaProgressVariant(world, wf, we))
+    if only:
+        out = [v for v in out if any(o in v.name for o in only)]
+    return out
